@@ -290,8 +290,9 @@ def run(ctx):
                         lt, rt = norm(v.left), v.comparators[0]
                         if lt == 'len(%s.bonded_atoms)' % atom and isinstance(v.ops[0], ast.Eq):
                             k = try_fold(rt)
-                        if lt == atom + '.number_of_protons_to_add' and isinstance(v.ops[0], ast.Gt) \
-                                and try_fold(rt) == 0:
+                        # oriented by the loader:  0 < atom.number_of_protons_to_add
+                        if norm(rt) == atom + '.number_of_protons_to_add' and isinstance(v.ops[0], ast.Lt) \
+                                and try_fold(v.left) == 0:
                             remaining = True
                 if k is not None and remaining and len(s.test.values) == 2:
                     n_add = sum(1 for c in calls_in(s) if last_attr(c) == 'add_proton')
@@ -366,7 +367,7 @@ def run(ctx):
         'num_pi_elec_conj_bonds_sidechains': ('num_pi_elec_conj_2_3_bonds', 'RES-ATOM', ()),
         'num_pi_elec_bonds_backbone': ('num_pi_elec_2_3_bonds', 'NAME', ()),
         'num_pi_elec_conj_bonds_backbone': ('num_pi_elec_conj_2_3_bonds', 'NAME',
-                                            ('len(%s.bonded_atoms) > 1' % each_atom,)),
+                                            ('1 < len(%s.bonded_atoms)' % each_atom,)),
     }
     ctx.ob('C17.R3', 'pi-table-application',
            all(applied.get(k) == v for k, v in want_applied.items()),
